@@ -113,6 +113,7 @@ type AssertRec struct {
 	Result  string // holds | violated | unknown | trivial
 	Model   map[string]string
 	Known   string // known-finding id ("" for plain asserts)
+	Kind    string // "" = assert; "never" = satisfiability obligation
 }
 
 // Exec is the state of one run (one path) of one case.
